@@ -623,7 +623,13 @@ def check_c12(tier, replay):
             "remains in its vault or log. Non-trivial = behaviour with a state-changing step.")
     if tier == "quick":
         inst = [{"consts": base_consts(MetaFolders=["f1"], Slots=["s1"], Values=["v1", "v2"],
-                                       Enabled=C12_ENABLED), "max_len": 60}]
+                                       Enabled=C12_ENABLED), "max_len": 60},
+                # names, flags and descriptions of two folders at once (equal names included) under the
+                # account-wide operations
+                {"consts": base_consts(MetaFolders=["f1", "d"], Slots=["s1"], Values=["v1"], Descs=[],
+                                       Enabled=["CreateSecret", "CreateFolder", "RenameFolder", "SetFlags",
+                                                "ChangeCipher", "ChangeAccountPassword", "Compact"]),
+                 "max_len": 40}]
     else:
         inst = [{"consts": base_consts(Enabled=C12_ENABLED, MaxEpoch=2, MetaFolders=["f1"]),
                  "representatives": False, "max_len": 80},
